@@ -2,7 +2,7 @@
 import z3
 
 from .. import symx
-from ..run import Harness
+from ..run import Harness, Prepared
 from ..symx import choice, INT64_MIN, SymI64
 from ..tree import Arr, Frame, Raised
 from .common import (as_cell, BV, T, cell_ident, const_ints, frame_rows_clauses, isna, kind_of, mk_col, np_eq, rid_col,
@@ -186,6 +186,7 @@ def harnesses(tier):
         if not quick or k in ("f", "T"):
             hs.append(Subset("filter", k, N, "kw2"))
             hs.append(Subset("filter_out", k, N, "kw2"))
+    hs.append(Prepared(Subset("unique", "U" if not quick else "T", 2))); hs.append(Prepared(Subset("drop_na", "T", 2)))
     hs.append(Subset("filter", "f", N, "mask"))
     hs.append(Subset("filter_out", "f", N, "mask"))
     for m in ("slice", "slice_off", "head", "tail", "sample"):
